@@ -11,8 +11,11 @@ from ..core import CaseResult, bind_repo
 
 PROP = "C07"
 LEVEL = "exploration"
-RULE = ("237 settings (every group by name, R groups in both settings) x 4 atom-list configurations (1 or 2 general-position atoms "
-        "of different elements, Uiso or positive-definite Uani, occupancies 1 / 0.8 / 0.5) x every hkl of the box |h|<=2 (quick) / "
+RULE = ("237 settings (every group by name from the harness's Hermann-Mauguin table: compact, padded / upper-case, with blanks between the "
+        "symbol elements; R groups in both settings) x 8 atom-list configurations (1 or 2 general-position atoms of different elements, Uiso or "
+        "positive-definite Uani incl. exactly / nearly diagonal tensors, occupancies 1 / 0.8 / 0.5, atoms a few 1e-6 from special positions, "
+        "coordinates without round digits; quick: four of them alternate between neighbouring groups) + whole-number cells in every container / "
+        "dtype x every hkl of the box |h|<=2 (quick) / "
         "|h|<=3 + axial reflections to 8 (thorough) x every operation (R,t) of the group: F(hR) = F(h) exp(-2 pi i h.t); F = 0 for "
         "every reflection the exact rule calls extinct; F(-h) = conj F(h). distinct_nontrivial = distinct (setting, config, "
         "operation index) triples with R != identity plus distinct extinct (setting, hkl) pairs.")
@@ -29,6 +32,10 @@ CONFIGS = [
     # tensors a shortcut could mistake for "symmetric enough": exactly diagonal with unequal entries, and diagonal to 1e-9
     ("1 atom Uani diagonal", [("FE", (0.1234, 0.2345, 0.3456), "Uani", (0.010, 0.021, 0.033, 0.0, 0.0, 0.0), 1.0)]),
     ("1 atom Uani nearly diagonal", [("O", (0.41, 0.07, 0.77), "Uani", (0.012, 0.027, 0.019, 1e-9, -1e-9, 1e-9), 0.9)]),
+    # general positions (multiplicity = nsymop) a few 1e-6 away from special ones: origin / inversion centres, axes and planes through 0, 1/4, 1/2;
+    # and coordinates with no round digits
+    ("2 atoms near special positions", [("FE", (3e-6, 0.5 - 2e-6, 0.25 + 1e-6), "Uiso", 0.012, 1.0), ("O", (0.25 + 4e-6, 0.25 - 3e-6, 2e-6), "Uiso", 0.02, 0.7)]),
+    ("1 atom unround", [("S", (0.123456789012, 0.718281828459, 0.314159265359), "Uani", (0.0123456789, 0.0214365879, 0.0176543219, 0.0031415926, -0.0027182818, 0.0014142135), 0.87654321)]),
 ]
 
 
@@ -50,6 +57,8 @@ def cases(tier, seed):
     for (no, cc) in alph.SETTINGS:
         nm = names[(no, cc)]
         for ci in range(len(CONFIGS)):
+            if tier == "quick" and ci in (2, 3, 4, 5) and (no + ci) % 2:
+                continue  # quick: the four middle configurations alternate between neighbouring groups
             cs.append({"no": no, "cc": cc, "name": nm[ci % len(nm)], "config": ci, "tier": tier})
         if cc == "rhombohedral" or no in (14, 62, 225):
             # the same group named the way users write it: padded, upper case (incl. the setting suffix), blanks inside
